@@ -1,8 +1,26 @@
-// gen_decisions serialises the bodies of gribigo's pure decision functions into
+// gen_decisions serialises the bodies of gribigo's decision functions into
 // the GoLite syntax of /verif/coq/theories/Base/GoLite.v.  It is a serialiser,
 // not an interpreter: the semantics lives in Coq.  Any construct outside the
 // subset becomes an expression that evaluates to "panic" in GoLite, so the
 // theorems about the function stop checking rather than silently passing.
+//
+// What the serialiser itself decides (everything else is decided in Coq):
+//   - `x := e` -> SDecl, `x = e` -> SSet, `recv.f = e` -> SSetField (recv = the method's receiver;
+//     any other assignment target is unsupported);
+//   - the receiver may only occur as `recv.field` or `recv.method(...)`; a bare use (copy, argument,
+//     re-declaration of its name) is unsupported, so nothing aliases the receiver;
+//   - `xs := f(...)` / `xs := recv.m(...)` -> SCallF / SCallM (calls as statements); a condition of
+//     the exact form `recv.m(...)` or `!recv.m(...)` is hoisted in front of its `if`;
+//     a receiver method anywhere else in an expression is a pure call (ECall), which GoLite
+//     only knows for read-only methods;
+//   - `if init; c {..} else {..}` is wrapped in a block so that init's variables do not escape;
+//   - a parallel assignment `a, b := e1, e2` is split only if no ei mentions an assigned name;
+//   - `recv.mu.Lock()/Unlock()/RLock()/RUnlock()` and `defer` of those, and log calls -> SSkip;
+//   - `delete(recv.f, k)` -> SDelete;
+//   - status / error constructors and literals containing slices are summarised by the enum
+//     constants they mention (EOpaque); `&spb.T{k: e}` -> EMsg; `&T{k: e}` / `T{k: e}` -> ENew.
+//   - "Modify.dispatch": the tagless switch of Modify's receive loop; each case body is summarised
+//     by the receiver methods it calls / the status code it sends on errCh.
 package main
 
 import (
@@ -19,6 +37,12 @@ import (
 
 var pkgIdents = map[string]bool{"codes": true, "spb": true, "status": true, "log": true, "fmt": true, "uint128": true}
 
+// recvName is the receiver of the method being translated ("" for a plain function).
+var recvName string
+
+var builtins = map[string]bool{"len": true, "cap": true, "append": true, "make": true, "new": true, "panic": true,
+	"delete": true, "copy": true, "close": true, "print": true, "println": true, "recover": true, "min": true, "max": true}
+
 func q(s string) string { return `"` + strings.ReplaceAll(s, `"`, `""`) + `"` }
 
 func unsupported(what string) string {
@@ -27,7 +51,7 @@ func unsupported(what string) string {
 
 // opaque summarises a constructed result (status error / response literal) by the
 // enum constants it mentions; message texts are dropped on purpose.
-func opaque(e ast.Expr) string {
+func opaque(e ast.Node) string {
 	var codes, details, results []string
 	ast.Inspect(e, func(n ast.Node) bool {
 		if s, ok := n.(*ast.SelectorExpr); ok {
@@ -53,6 +77,95 @@ func opaque(e ast.Expr) string {
 	return "(EOpaque \"other\")"
 }
 
+func isRecv(e ast.Expr) bool {
+	id, ok := e.(*ast.Ident)
+	return ok && recvName != "" && id.Name == recvName
+}
+
+// structured translates a keyed struct literal of a named type whose values are expressions or
+// nested such literals; ok=false for anything else (slices, positional fields, ...).
+func structured(e ast.Expr) (string, bool) {
+	if u, ok := e.(*ast.UnaryExpr); ok && u.Op == token.AND {
+		e = u.X
+	}
+	cl, ok := e.(*ast.CompositeLit)
+	if !ok {
+		return "", false
+	}
+	ctor, ty := "", ""
+	switch t := cl.Type.(type) {
+	case *ast.Ident:
+		ctor, ty = "ENew", t.Name
+	case *ast.SelectorExpr:
+		if id, ok := t.X.(*ast.Ident); ok && id.Name == "spb" {
+			ctor, ty = "EMsg", t.Sel.Name
+		}
+	}
+	if ctor == "" {
+		return "", false
+	}
+	kvs := []string{}
+	for _, el := range cl.Elts {
+		kv, ok := el.(*ast.KeyValueExpr)
+		if !ok {
+			return "", false
+		}
+		k, ok := kv.Key.(*ast.Ident)
+		if !ok {
+			return "", false
+		}
+		var v string
+		inner := kv.Value
+		if u, ok := inner.(*ast.UnaryExpr); ok && u.Op == token.AND {
+			inner = u.X
+		}
+		if _, isLit := inner.(*ast.CompositeLit); isLit {
+			s, ok := structured(kv.Value)
+			if !ok {
+				return "", false
+			}
+			v = s
+		} else {
+			v = expr(kv.Value)
+		}
+		kvs = append(kvs, fmt.Sprintf("(%s, %s)", q(k.Name), v))
+	}
+	return fmt.Sprintf("(%s %s [%s])", ctor, q(ty), strings.Join(kvs, "; ")), true
+}
+
+func mentionsResultOrCode(e ast.Node) bool {
+	found := false
+	ast.Inspect(e, func(n ast.Node) bool {
+		if s, ok := n.(*ast.SelectorExpr); ok {
+			if id, ok := s.X.(*ast.Ident); ok {
+				if id.Name == "codes" || (id.Name == "spb" && (strings.HasPrefix(s.Sel.Name, "AFTResult_") ||
+					strings.HasPrefix(s.Sel.Name, "ModifyRPCErrorDetails_") || strings.HasPrefix(s.Sel.Name, "FlushResponseError_"))) {
+					found = true
+				}
+			}
+		}
+		return true
+	})
+	return found
+}
+
+func literal(e ast.Expr) string {
+	if !mentionsResultOrCode(e) {
+		if s, ok := structured(e); ok {
+			return s
+		}
+	}
+	return opaque(e)
+}
+
+func exprs(l []ast.Expr) string {
+	out := []string{}
+	for _, a := range l {
+		out = append(out, expr(a))
+	}
+	return strings.Join(out, "; ")
+}
+
 func expr(e ast.Expr) string {
 	switch v := e.(type) {
 	case *ast.ParenExpr:
@@ -65,6 +178,9 @@ func expr(e ast.Expr) string {
 			return "(EBool true)"
 		case "false":
 			return "(EBool false)"
+		}
+		if isRecv(v) {
+			return unsupported("receiver used as a value")
 		}
 		return fmt.Sprintf("(EVar %s)", q(v.Name))
 	case *ast.BasicLit:
@@ -85,7 +201,13 @@ func expr(e ast.Expr) string {
 		return unsupported("literal " + v.Value)
 	case *ast.SelectorExpr:
 		if id, ok := v.X.(*ast.Ident); ok && pkgIdents[id.Name] {
+			if id.Name == "spb" && strings.Contains(v.Sel.Name, "_") {
+				return fmt.Sprintf("(EConst %s)", q(v.Sel.Name))
+			}
 			return unsupported("package selector " + id.Name + "." + v.Sel.Name)
+		}
+		if isRecv(v.X) {
+			return fmt.Sprintf("(ESel (EVar %s) %s)", q(recvName), q(v.Sel.Name))
 		}
 		return fmt.Sprintf("(ESel %s %s)", expr(v.X), q(v.Sel.Name))
 	case *ast.BinaryExpr:
@@ -99,16 +221,15 @@ func expr(e ast.Expr) string {
 		case token.NOT:
 			return fmt.Sprintf("(ENot %s)", expr(v.X))
 		case token.AND:
-			return opaque(v)
+			if _, ok := v.X.(*ast.CompositeLit); ok {
+				return literal(v)
+			}
+			return unsupported("address-of")
 		}
 		return unsupported("unary operator " + v.Op.String())
 	case *ast.CompositeLit:
-		return opaque(v)
+		return literal(v)
 	case *ast.CallExpr:
-		args := []string{}
-		for _, a := range v.Args {
-			args = append(args, expr(a))
-		}
 		switch f := v.Fun.(type) {
 		case *ast.Ident:
 			if strings.HasPrefix(f.Name, "add") && strings.HasSuffix(f.Name, "ErrDetailsOrReturn") {
@@ -119,7 +240,7 @@ func expr(e ast.Expr) string {
 			if id, ok := f.X.(*ast.Ident); ok && pkgIdents[id.Name] {
 				switch {
 				case id.Name == "uint128" && f.Sel.Name == "New":
-					return fmt.Sprintf("(ECall \"uint128.New\" [%s])", strings.Join(args, "; "))
+					return fmt.Sprintf("(ECall \"uint128.New\" [%s])", exprs(v.Args))
 				case id.Name == "status":
 					return opaque(v)
 				}
@@ -131,8 +252,17 @@ func expr(e ast.Expr) string {
 					return opaque(v)
 				}
 			}
-			all := append([]string{expr(f.X)}, args...)
-			return fmt.Sprintf("(ECall %s [%s])", q(f.Sel.Name), strings.Join(all, "; "))
+			var rcv string
+			if isRecv(f.X) {
+				rcv = fmt.Sprintf("(EVar %s)", q(recvName)) // a pure (read-only) method of the receiver
+			} else {
+				rcv = expr(f.X)
+			}
+			all := rcv
+			if len(v.Args) > 0 {
+				all += "; " + exprs(v.Args)
+			}
+			return fmt.Sprintf("(ECall %s [%s])", q(f.Sel.Name), all)
 		}
 		return unsupported("call")
 	}
@@ -177,36 +307,178 @@ func isLogCall(e ast.Expr) bool {
 	return false
 }
 
-func bad(what string) []string {
-	return []string{fmt.Sprintf("SAssign \"_\" %s", unsupported(what))}
+// recv.<field>.Lock() / Unlock() / RLock() / RUnlock()
+func isLockCall(e ast.Expr) bool {
+	c, ok := e.(*ast.CallExpr)
+	if !ok || len(c.Args) != 0 {
+		return false
+	}
+	s, ok := c.Fun.(*ast.SelectorExpr)
+	if !ok {
+		return false
+	}
+	switch s.Sel.Name {
+	case "Lock", "Unlock", "RLock", "RUnlock":
+	default:
+		return false
+	}
+	f, ok := s.X.(*ast.SelectorExpr)
+	return ok && isRecv(f.X)
 }
+
+func bad(what string) []string {
+	return []string{fmt.Sprintf("SDecl \"_\" %s", unsupported(what))}
+}
+
+// recvMethodCall: e is recv.m(args)
+func recvMethodCall(e ast.Expr) (*ast.CallExpr, string, bool) {
+	c, ok := e.(*ast.CallExpr)
+	if !ok {
+		return nil, "", false
+	}
+	s, ok := c.Fun.(*ast.SelectorExpr)
+	if !ok || !isRecv(s.X) {
+		return nil, "", false
+	}
+	return c, s.Sel.Name, true
+}
+
+// plainCall: e is f(args), f a function of the package (not a builtin, not an error constructor)
+func plainCall(e ast.Expr) (*ast.CallExpr, string, bool) {
+	c, ok := e.(*ast.CallExpr)
+	if !ok {
+		return nil, "", false
+	}
+	id, ok := c.Fun.(*ast.Ident)
+	if !ok || builtins[id.Name] || (strings.HasPrefix(id.Name, "add") && strings.HasSuffix(id.Name, "ErrDetailsOrReturn")) {
+		return nil, "", false
+	}
+	return c, id.Name, true
+}
+
+func names(l []ast.Expr) ([]string, bool) {
+	out := []string{}
+	for _, e := range l {
+		id, ok := e.(*ast.Ident)
+		if !ok || (recvName != "" && id.Name == recvName) {
+			return nil, false
+		}
+		out = append(out, q(id.Name))
+	}
+	return out, true
+}
+
+func mentions(e ast.Expr, name string) bool {
+	found := false
+	ast.Inspect(e, func(n ast.Node) bool {
+		if id, ok := n.(*ast.Ident); ok && id.Name == name {
+			found = true
+		}
+		return true
+	})
+	return found
+}
+
+func coqBool(b bool) string {
+	if b {
+		return "true"
+	}
+	return "false"
+}
+
+func assign(v *ast.AssignStmt) []string {
+	if v.Tok != token.DEFINE && v.Tok != token.ASSIGN {
+		return bad("assignment operator " + v.Tok.String())
+	}
+	decl := v.Tok == token.DEFINE
+	// xs := call(...)
+	if len(v.Rhs) == 1 {
+		if c, m, ok := recvMethodCall(v.Rhs[0]); ok {
+			xs, ok := names(v.Lhs)
+			if !ok {
+				return bad("call result assigned to a non-variable")
+			}
+			return []string{fmt.Sprintf("SCallM %s [%s] %s %s [%s]", coqBool(decl), strings.Join(xs, "; "), q(recvName), q(m), exprs(c.Args))}
+		}
+		if c, f, ok := plainCall(v.Rhs[0]); ok {
+			xs, ok := names(v.Lhs)
+			if !ok {
+				return bad("call result assigned to a non-variable")
+			}
+			return []string{fmt.Sprintf("SCallF %s [%s] %s [%s]", coqBool(decl), strings.Join(xs, "; "), q(f), exprs(c.Args))}
+		}
+	}
+	if len(v.Lhs) != len(v.Rhs) {
+		return bad("assignment form")
+	}
+	if len(v.Lhs) > 1 {
+		for _, l := range v.Lhs {
+			id, ok := l.(*ast.Ident)
+			if !ok {
+				return bad("parallel assignment to a non-variable")
+			}
+			for _, r := range v.Rhs {
+				if id.Name != "_" && mentions(r, id.Name) {
+					return bad("parallel assignment whose right side mentions an assigned variable")
+				}
+			}
+		}
+	}
+	out := []string{}
+	for i := range v.Lhs {
+		switch l := v.Lhs[i].(type) {
+		case *ast.Ident:
+			if recvName != "" && l.Name == recvName {
+				return bad("assignment to the receiver")
+			}
+			if decl {
+				out = append(out, fmt.Sprintf("SDecl %s %s", q(l.Name), expr(v.Rhs[i])))
+			} else {
+				out = append(out, fmt.Sprintf("SSet %s %s", q(l.Name), expr(v.Rhs[i])))
+			}
+		case *ast.SelectorExpr:
+			if decl || !isRecv(l.X) {
+				return bad("assignment to a field of something other than the receiver")
+			}
+			out = append(out, fmt.Sprintf("SSetField %s %s %s", q(recvName), q(l.Sel.Name), expr(v.Rhs[i])))
+		default:
+			return bad("assignment to non-identifier")
+		}
+	}
+	return out
+}
+
+var hoistN int
 
 func stmt(s ast.Stmt) []string {
 	switch v := s.(type) {
 	case *ast.ReturnStmt:
-		rs := []string{}
-		for _, r := range v.Results {
-			rs = append(rs, expr(r))
-		}
-		return []string{fmt.Sprintf("SReturn [%s]", strings.Join(rs, "; "))}
+		return []string{fmt.Sprintf("SReturn [%s]", exprs(v.Results))}
 	case *ast.ExprStmt:
-		if isLogCall(v.X) {
+		if isLogCall(v.X) || isLockCall(v.X) {
 			return []string{"SSkip"}
 		}
-		return bad("expression statement")
-	case *ast.AssignStmt:
-		if (v.Tok != token.DEFINE && v.Tok != token.ASSIGN) || len(v.Lhs) != len(v.Rhs) {
-			return bad("assignment form")
-		}
-		out := []string{}
-		for i := range v.Lhs {
-			id, ok := v.Lhs[i].(*ast.Ident)
-			if !ok {
-				return bad("assignment to non-identifier")
+		if c, ok := v.X.(*ast.CallExpr); ok {
+			if id, ok := c.Fun.(*ast.Ident); ok && id.Name == "delete" && len(c.Args) == 2 {
+				if sel, ok := c.Args[0].(*ast.SelectorExpr); ok && isRecv(sel.X) {
+					return []string{fmt.Sprintf("SDelete %s %s %s", q(recvName), q(sel.Sel.Name), expr(c.Args[1]))}
+				}
+				return bad("delete on something other than a field of the receiver")
 			}
-			out = append(out, fmt.Sprintf("SAssign %s %s", q(id.Name), expr(v.Rhs[i])))
 		}
-		return out
+		if c, m, ok := recvMethodCall(v.X); ok {
+			return []string{fmt.Sprintf("SCallM true [] %s %s [%s]", q(recvName), q(m), exprs(c.Args))}
+		}
+		return bad("expression statement")
+	case *ast.DeferStmt:
+		if isLockCall(v.Call) {
+			return []string{"SSkip"}
+		}
+		return bad("defer")
+	case *ast.AssignStmt:
+		return assign(v)
+	case *ast.BlockStmt:
+		return []string{fmt.Sprintf("SIf (EBool true) %s []", block(v))}
 	case *ast.IfStmt:
 		pre := []string{}
 		if v.Init != nil {
@@ -219,53 +491,142 @@ func stmt(s ast.Stmt) []string {
 		case *ast.IfStmt:
 			el = "[" + strings.Join(stmt(e), ";\n ") + "]"
 		}
-		return append(pre, fmt.Sprintf("SIf %s %s %s", expr(v.Cond), block(v.Body), el))
+		cond := ""
+		inner := v.Cond
+		neg := false
+		if u, ok := inner.(*ast.UnaryExpr); ok && u.Op == token.NOT {
+			inner, neg = u.X, true
+		}
+		if c, m, ok := recvMethodCall(inner); ok {
+			// the call is the first (and only) thing the condition evaluates: hoist it
+			hoistN++
+			tmp := fmt.Sprintf("%%cond%d", hoistN)
+			pre = append(pre, fmt.Sprintf("SCallM true [%s] %s %s [%s]", q(tmp), q(recvName), q(m), exprs(c.Args)))
+			cond = fmt.Sprintf("(EVar %s)", q(tmp))
+			if neg {
+				cond = fmt.Sprintf("(ENot %s)", cond)
+			}
+		} else {
+			cond = expr(v.Cond)
+		}
+		ifs := fmt.Sprintf("SIf %s %s %s", cond, block(v.Body), el)
+		if len(pre) == 0 {
+			return []string{ifs}
+		}
+		// the scope of the init statement (and of the hoisted temporary) is the if statement
+		return []string{fmt.Sprintf("SIf (EBool true) [%s] []", strings.Join(append(pre, ifs), ";\n "))}
 	case *ast.SwitchStmt:
 		if v.Tag != nil || v.Init != nil {
 			return bad("tagged switch")
 		}
-		// tagless switch without fallthrough == if / else-if chain over (c1 || c2 || ...)
-		type cc struct {
-			cond string
-			body string
-		}
-		var cases []cc
-		dflt := "[]"
-		for _, c := range v.Body.List {
-			cl := c.(*ast.CaseClause)
-			for _, b := range cl.Body {
-				if br, ok := b.(*ast.BranchStmt); ok && br.Tok == token.FALLTHROUGH {
-					return bad("fallthrough")
-				}
-			}
-			if cl.List == nil {
-				dflt = stmts(cl.Body)
-				continue
-			}
-			cond := expr(cl.List[0])
-			for _, e := range cl.List[1:] {
-				cond = fmt.Sprintf("(EBin \"||\" %s %s)", cond, expr(e))
-			}
-			cases = append(cases, cc{cond, stmts(cl.Body)})
-		}
-		res := dflt
-		for i := len(cases) - 1; i >= 0; i-- {
-			res = fmt.Sprintf("[SIf %s %s %s]", cases[i].cond, cases[i].body, res)
-		}
-		if len(cases) == 0 {
-			return []string{"SIf (EBool true) " + dflt + " []"}
-		}
-		return []string{strings.TrimSuffix(strings.TrimPrefix(res, "["), "]")}
+		return []string{tagless(v, stmts)}
 	case *ast.EmptyStmt:
 		return []string{"SSkip"}
 	}
 	return bad(fmt.Sprintf("%T", s))
 }
 
+// tagless switch without fallthrough == if / else-if chain over (c1 || c2 || ...)
+func tagless(v *ast.SwitchStmt, body func([]ast.Stmt) string) string {
+	type cc struct {
+		cond string
+		body string
+	}
+	var cases []cc
+	dflt := "[]"
+	for _, c := range v.Body.List {
+		cl := c.(*ast.CaseClause)
+		esc := false
+		ast.Inspect(cl, func(n ast.Node) bool {
+			if br, ok := n.(*ast.BranchStmt); ok && (br.Tok == token.FALLTHROUGH || br.Tok == token.BREAK || br.Tok == token.GOTO) {
+				esc = true
+			}
+			return true
+		})
+		if esc {
+			return bad("fallthrough / break in switch")[0]
+		}
+		if cl.List == nil {
+			dflt = body(cl.Body)
+			continue
+		}
+		cond := expr(cl.List[0])
+		for _, e := range cl.List[1:] {
+			cond = fmt.Sprintf("(EBin \"||\" %s %s)", cond, expr(e))
+		}
+		cases = append(cases, cc{cond, body(cl.Body)})
+	}
+	res := dflt
+	for i := len(cases) - 1; i >= 0; i-- {
+		res = fmt.Sprintf("[SIf %s %s %s]", cases[i].cond, cases[i].body, res)
+	}
+	if len(cases) == 0 {
+		return "SIf (EBool true) " + dflt + " []"
+	}
+	return strings.TrimSuffix(strings.TrimPrefix(res, "["), "]")
+}
+
+// summary of one case of the dispatch switch: which receiver methods it calls (in source order),
+// else which status it sends on a channel at the top level of the case, else "skip".
+func summary(l []ast.Stmt) string {
+	var calls []string
+	for _, s := range l {
+		ast.Inspect(s, func(n ast.Node) bool {
+			if c, ok := n.(*ast.CallExpr); ok {
+				if _, m, ok := recvMethodCall(c); ok {
+					calls = append(calls, m)
+				}
+			}
+			return true
+		})
+	}
+	if len(calls) > 0 {
+		return fmt.Sprintf("[SReturn [EStr %s]]", q("call:"+strings.Join(calls, "+")))
+	}
+	for i, s := range l {
+		if snd, ok := s.(*ast.SendStmt); ok && i+1 < len(l) {
+			if _, ok := l[i+1].(*ast.ReturnStmt); ok {
+				return fmt.Sprintf("[SReturn [%s]]", opaque(snd.Value))
+			}
+		}
+	}
+	for _, s := range l {
+		switch s.(type) {
+		case *ast.SendStmt, *ast.ReturnStmt, *ast.GoStmt:
+			return "[SReturn [" + unsupported("unrecognised case of the dispatch switch") + "]]"
+		}
+	}
+	return "[SReturn [EStr \"skip\"]]"
+}
+
+// the dispatch switch of Modify: the first tagless switch (in source order) inside a function
+// literal of fd whose cases test the fields of one message variable
+func dispatch(fd *ast.FuncDecl) (string, bool) {
+	var sw *ast.SwitchStmt
+	ast.Inspect(fd.Body, func(n ast.Node) bool {
+		if sw != nil {
+			return false
+		}
+		if fl, ok := n.(*ast.FuncLit); ok {
+			ast.Inspect(fl.Body, func(m ast.Node) bool {
+				if s, ok := m.(*ast.SwitchStmt); ok && sw == nil && s.Tag == nil && s.Init == nil {
+					sw = s
+				}
+				return sw == nil
+			})
+		}
+		return true
+	})
+	if sw == nil {
+		return "", false
+	}
+	return "[" + tagless(sw, summary) + "]", true
+}
+
 func main() {
 	src := flag.String("src", "/repo/server/server.go", "source file")
 	out := flag.String("out", "", "output .v file")
-	fns := flag.String("funcs", "isNewMaster,checkElectionForModify,checkFlushRequest", "functions")
+	fns := flag.String("funcs", "isNewMaster,checkElectionForModify,checkFlushRequest,runElection,checkParams,deleteClient,Modify.dispatch", "functions (F.dispatch = the message switch inside F)")
 	flag.Parse()
 	fset := token.NewFileSet()
 	f, err := parser.ParseFile(fset, *src, nil, 0)
@@ -278,23 +639,40 @@ func main() {
 		want[n] = true
 	}
 	found := map[string]string{}
+	plain := []string{}
 	for _, d := range f.Decls {
 		fd, ok := d.(*ast.FuncDecl)
-		if !ok || !want[fd.Name.Name] || fd.Body == nil {
+		if !ok || fd.Body == nil {
 			continue
 		}
-		params := []string{}
+		recvName = ""
 		if fd.Recv != nil {
 			for _, p := range fd.Recv.List {
 				for _, n := range p.Names {
-					params = append(params, q(n.Name))
+					recvName = n.Name
 				}
 			}
+		}
+		if want[fd.Name.Name+".dispatch"] {
+			coq := fd.Name.Name + "_dispatch"
+			if body, ok := dispatch(fd); ok {
+				found[fd.Name.Name+".dispatch"] = fmt.Sprintf("Definition %s_body : list gstmt :=\n %s.\n", coq, body)
+			}
+		}
+		if !want[fd.Name.Name] {
+			continue
+		}
+		params := []string{}
+		if recvName != "" {
+			params = append(params, q(recvName))
 		}
 		for _, p := range fd.Type.Params.List {
 			for _, n := range p.Names {
 				params = append(params, q(n.Name))
 			}
+		}
+		if recvName == "" {
+			plain = append(plain, fd.Name.Name)
 		}
 		found[fd.Name.Name] = fmt.Sprintf("Definition %s_params : list string := [%s].\nDefinition %s_body : list gstmt :=\n %s.\n",
 			fd.Name.Name, strings.Join(params, "; "), fd.Name.Name, stmts(fd.Body.List))
@@ -310,11 +688,20 @@ func main() {
 	for _, n := range names {
 		if s, ok := found[n]; ok {
 			b.WriteString(s + "\n")
+		} else if strings.HasSuffix(n, ".dispatch") {
+			b.WriteString(fmt.Sprintf("Definition %s_body : list gstmt := [SDecl \"_\" %s].\n\n", strings.ReplaceAll(n, ".", "_"), unsupported(n+" not found")))
 		} else {
 			// function vanished: a body that panics, so every theorem about it stops checking
-			b.WriteString(fmt.Sprintf("Definition %s_params : list string := [].\nDefinition %s_body : list gstmt := [SAssign \"_\" %s].\n\n", n, n, unsupported("function "+n+" not found")))
+			b.WriteString(fmt.Sprintf("Definition %s_params : list string := [].\nDefinition %s_body : list gstmt := [SDecl \"_\" %s].\n\n", n, n, unsupported("function "+n+" not found")))
 		}
 	}
+	// the translated plain functions, callable from the translated methods (SCallF)
+	sort.Strings(plain)
+	defs := []string{}
+	for _, n := range plain {
+		defs = append(defs, fmt.Sprintf("(%s, (%s_params, %s_body))", q(n), n, n))
+	}
+	b.WriteString("Definition decisions_funs : fundefs :=\n [" + strings.Join(defs, ";\n  ") + "].\n")
 	if *out == "" {
 		fmt.Print(b.String())
 		return
